@@ -285,7 +285,8 @@ inductive Op
                                                             -- … f with keyword-only parameters
   | wrapConst (fn : Nat)                                    -- UserFunction(3.0)
   | wrapExplicit (fn : Nat) (params : List String) (dc : Option Nat)  -- UserFunction(f, defaults=…, args=[…])
-  | rewrap (r : Nat)                                        -- UserFunction(u); also copy.copy(u)
+  | rewrap (r : Nat)                                        -- UserFunction(u)
+  | shallowCopy (r : Nat)                                   -- copy.copy(u): a new wrapper object with the SAME attribute objects
   | call (r : Nat) (env : Dict)
   | callVec (r : Nat) (env : Dict) (lens : List (Val × Nat))   -- u(env, vectorize=True); lens: rows per value
   | partialEval (r : Nat) (σ : Dict)
@@ -339,6 +340,10 @@ def step (h : Heap) : Op → Heap × Out
     match h.ws[r]? with
     | some u => h.addWrapper u
     | none => (h, .err .badRef)
+  | .shallowCopy r =>
+    match h.ws[r]? with
+    | some u => h.addWrapper u
+    | none => (h, .err .badRef)
   | .call r env =>
     match h.look r with
     | some (u, d) =>
@@ -386,6 +391,38 @@ def step (h : Heap) : Op → Heap × Out
     match h.look r with
     | some (u, d) => h.addFresh u.fn u.callable u.params d
     | none => (h, .err .badRef)
+
+/-! ### the second container policy of the constructor
+
+  `step` mirrors the constructor that ALIASES: `UserFunction(u)` stores `u.defaults` itself and an explicitly
+  passed `defaults=` dict is used as it is.  The statement of C13 does not promise either sharing or isolation
+  under `set_default`, so the constructor that gives every wrapper its OWN (shallow) copy of these containers
+  is an equally valid implementation; `stepCopy` is that policy.  `copy.copy(u)` aliases under both. -/
+
+inductive Policy | share | copy
+  deriving DecidableEq, Repr
+
+def stepCopy (h : Heap) : Op → Heap × Out
+  | .rewrap r =>
+    match h.look r with
+    | some (u, d) => h.addFresh u.fn u.callable u.params d
+    | none => (h, .err .badRef)
+  | .wrapExplicit fn params (some c) =>
+    match h.dicts[c]? with
+    | some d => h.addFresh fn true params d
+    | none => (h, .err .badRef)
+  | op => step h op
+
+def stepP : Policy → Heap → Op → Heap × Out
+  | .share => step
+  | .copy => stepCopy
+
+def runP (pol : Policy) : Heap → List Op → Heap × List Out
+  | h, [] => (h, [])
+  | h, op :: ops =>
+    let (h1, o) := stepP pol h op
+    let (h2, os) := runP pol h1 ops
+    (h2, o :: os)
 
 /-- a history -/
 def run : Heap → List Op → Heap × List Out
